@@ -110,11 +110,19 @@ pub fn reveal_cases() -> Vec<RevealCase> {
             out.push(RevealCase { name: format!("t{t}-noise{n}"), t, value: pat(n, n + t as usize), secret: b"hello".to_vec(), rv });
         }
     }
-    for t in [0u16, 1, 7, 8, 9, 12, 13, 20, 34, 39, 40, 65535] {
-        for s in secrets() {
-            for blocks in 1..=5usize {
+    let deep: [u16; 12] = [0, 1, 7, 8, 9, 12, 13, 20, 34, 39, 40, 65535];
+    let mut all_types: Vec<u16> = (0u16..=41).collect();
+    all_types.push(65535);
+    for t in all_types {
+        // every attribute type reaches its per-type decoder through reveal; the twelve "deep" ones get all secrets
+        // and up to five blocks, the others one secret and two blocks but every payload length 0..=27
+        let is_deep = deep.contains(&t);
+        let secs: Vec<Vec<u8>> = if is_deep { secrets() } else { vec![b"hello".to_vec()] };
+        for s in secs {
+            for blocks in 1..=(if is_deep { 5usize } else { 2usize }) {
                 let avail = 16 * blocks - 2;
                 let mut totals: Vec<usize> = vec![0, 5, 6, 7, 8, 10, avail + 5, avail + 6, avail + 7, 1023, 1024, 65535];
+                totals.extend((6usize..=33).filter(|x| *x <= avail + 6));
                 totals.sort();
                 totals.dedup();
                 for total in totals {
@@ -1132,8 +1140,12 @@ pub fn c20(ctx: &mut Ctx) {
     let mut values: Vec<u16> = (0..=45).collect();
     values.extend([100u16, 255, 256, 257, 0x0700, 9999, 32767, 32768, 65534, 65535]);
     let all_names: Vec<&str> = rf::assigned_kinds().into_iter().map(|k| rf::kind_name(k).unwrap()).collect();
+    let every: Vec<u16> = (0..=65535u16).collect();
     for vname in ERROR_VARIANTS {
-        for x in &values {
+        // errors that name an AVP kind are rendered for EVERY attribute number (the name of an assigned kind, the
+        // number itself otherwise); the others for the sample values
+        let names = error_by_name(vname, 0).map(|t| t.2).unwrap_or(false);
+        for x in (if names { &every } else { &values }) {
             let (e, has_payload, names_kind) = error_by_name(vname, *x).unwrap();
             if !has_payload && *x != 0 {
                 continue;
